@@ -22,7 +22,7 @@ MODULE = "Sqfs.Props.C13"
 REQUIRED = ["Sqfs.C13." + n for n in (
     "run_checked", "status_success_only_at_end", "status_success_no_fault", "cleanup_unlinks_the_stored_name",
     "cleanup_not_reached_only_in_init", "failure_never_leaves_output", "failure_never_leaves_output_partial",
-    "failure_has_diagnostic", "exit0_output_eq_fault_free", "first_failure_stops", "reader_status_success_no_fault",
+    "failure_reports_site", "all_sites_have_diagnostic", "failure_has_diagnostic", "exit0_output_eq_fault_free", "first_failure_stops", "reader_status_success_no_fault",
     "reader_first_failure_stops", "blockproc_error_propagates", "blockproc_session_propagates")]
 
 ALLOC_DEFS = ["-Dmalloc=vf_malloc", "-Dcalloc=vf_calloc", "-Drealloc=vf_realloc", "-Dstrdup=vf_strdup",
